@@ -661,6 +661,13 @@ def _truth(v):
         return False if all(t is False for t in ts) else None
     if v[0] == "compare" and len(v[1]) == 1:
         op, left, right = v[1][0], v[2], v[3][0]
+        if op in ("In", "NotIn") and left[0] == "const" and right[0] == "lit" \
+                and all(x[0] == "const" for x in right[2]):
+            try:
+                inside = left[1] in [x[1] for x in right[2]]
+            except TypeError:
+                return None
+            return inside if op == "In" else not inside
         if left[0] == "const" and right[0] == "const":
             a, b = left[1], right[1]
             import operator as _o
